@@ -28,6 +28,8 @@ Accept(e) ==
     [] e.op = "big" ->                                   \* a large well-formed model (digests): both readers, exact consumption
          /\ e.read_outcome = ReadOutcome(e.len, e.len, NoFault, TRUE) /\ e.consumed = e.len /\ e.reader_same
          /\ e.slice_outcome = SliceOutcome(e.len, e.len, TRUE) /\ e.slice_same /\ e.rest_len = 0
+    [] e.op = "tool_write" ->                            \* a model-writing command-line tool: len = 1 unit, the sink fails after `fault` units
+         e.outcome = WriteOutcome(e.len, IF e.good_sink THEN NoFault ELSE e.fault)
     [] OTHER -> FALSE
 Check == l <= Len(Rec) => (Accept(Rec[l]) \/ PrintT(<<"REJECT", ToJson([l |-> l, id |-> Rec[l].id])>>))
 =============================================================================
